@@ -898,8 +898,11 @@ def run(ctx):
             l2 = rand_line(r)
         f, g = feature_from_line(l1), feature_from_line(l2)
         y = r.random()
-        if y < 0.2:
+        if y < 0.1:
             g.id = "other-id"; g.file_order = 7; g.bin = 1
+        elif y < 0.2:
+            # two database features under different keys (e.g. exon_1 / exon_2 of a duplicated line)
+            f.id = "exon_1"; g.id = "exon_2"; g.file_order = 7
         elif y < 0.35:
             g = Feature(*g.astuple()[1:11])          # the database route: JSON attributes
         elif y < 0.45 and g.attributes:
@@ -921,6 +924,33 @@ def run(ctx):
         res.nontriv(("eq", sf, sg))
         if y >= 0.5:     # unedited pairs of parsed lines: the model parses and prints both
             corr("feq %s %s" % (enc(l1), enc(l2)), "ok %d %d" % (eq, ne), "Feature.__eq__/__ne__", repr((l1, l2)))
+
+    # the stored JSON text follows in-place changes of a value list (no stale serialisation) -----------------------------
+    import simplejson
+    from gffutils import helpers as _h
+    for i in range(300 if not ctx.thorough else 3000):
+        keys = r.sample(["ID", "Parent", "Note", "k"], r.randrange(1, 4))
+        d = {k: ["v%d" % r.randrange(5) for _ in range(r.randrange(1, 3))] for k in keys}
+        text = simplejson.dumps(d, separators=(",", ":"))
+        f = Feature(seqid="c", start=1, end=2, attributes=text)          # as fetched from a database
+        first = f.astuple()[9]
+        k = r.choice(keys)
+        op = r.choice(["append", "sort", "pop", "setitem0"])
+        lst = f.attributes[k]
+        if op == "append":
+            lst.append("added")
+        elif op == "sort":
+            lst.sort(reverse=True)
+        elif op == "pop" and len(lst) > 1:
+            lst.pop()
+        else:
+            lst[0] = "changed"
+        second = f.astuple()[9]
+        want = simplejson.dumps(f.attributes._d, separators=(",", ":"))
+        res.evaluations += 1
+        if first != text or second != want or _h._unjsonify(second, isattributes=True)._d != f.attributes._d:
+            F.add("the JSON text written for a feature does not follow an in-place change of a value list",
+                  {"kind": "json_stale", "json": text, "key": k, "op": op, "written": second, "expected": want})
 
     # ------------------------------------------------------------------------------------------------
     out = ctx.model(cmds)
